@@ -6,7 +6,7 @@
 namespace vf {
 
 // ---------------------------------------------------------------- shared generator
-// four regimes: small grammars and short inputs; larger alphabets, more and longer rules, longer inputs; a list of
+// five regimes (the fifth, chains of nonterminals, takes a quarter of the first's share): small grammars and short inputs; larger alphabets, more and longer rules, longer inputs; a list of
 // phrases of a small grammar (repetition of the same phrase in different places of the parse list); a sequence of
 // ambiguous components over a tiny alphabet
 static Case genParseCase(Choices &c, int tier, const char *prop, GramOpts o, int nInputs, int sentencePct) {
@@ -14,19 +14,22 @@ static Case genParseCase(Choices &c, int tier, const char *prop, GramOpts o, int
   cs.prop = prop;
   if (tier) { o.maxT = std::max(o.maxT, 4); o.maxN = std::max(o.maxN, 5); o.extraRules += 2; }
   int maxLen = tier ? 14 : 9;
-  int r = c.upto(9);
-  int regime = r <= 3 ? 0 : r <= 5 ? 1 : r <= 7 ? 2 : 3;
+  int regime = 0;
+  { int tot = 0; for (int w : o.regimeW) tot += w; int r = c.upto(tot - 1); for (int k = 0; k < 5; k++) { if (r < o.regimeW[k]) { regime = k; break; } r -= o.regimeW[k]; } }
   if (const char *fr = getenv("VERIF_FORCE_REGIME")) regime = atoi(fr); // development only: measure one regime
   if (regime == 1) { o.maxT = std::max(o.maxT, 6); o.maxN = std::max(o.maxN, 7); o.extraRules = std::max(o.extraRules, 8); o.maxRhs = std::max(o.maxRhs, 4); maxLen = tier ? 22 : 16; }
   GramDef gd;
   bool seqInner = regime == 2 && (c.chance(40) || getenv("VERIF_FORCE_SEQINNER")); // a list of phrases of a sequence grammar: cores recur with other distances
-  gd.raw = (regime == 3 || seqInner) ? genSeqGrammar(c, o) : genGrammar(c, o);
+  gd.raw = regime == 4 ? genChainGrammar(c, o) : (regime == 3 || seqInner) ? genSeqGrammar(c, o) : genGrammar(c, o);
+  if (regime == 4) maxLen = tier ? 18 : 14;
   if (regime == 3) maxLen = tier ? 12 : 9;
   WrapInfo wi;
   if (regime == 2) wi = wrapList(c, gd.raw, o);
   gd.strict = c.flip();
   // prefer a strictness under which the reference accepts the grammar
   if (!classify(gd.raw, gd.strict).empty() && classify(gd.raw, !gd.strict).empty()) gd.strict = !gd.strict;
+  // 15 %: the same grammar is handed over as a description text (yaep_parse_grammar) instead of through the callbacks
+  if (c.chance(15)) { std::string t; if (simpleText(gd.raw, t)) { gd.use_text = true; gd.text = t; } }
   cs.grams.push_back(gd);
   Gram g;
   if (!toGram(gd.raw, g) || !classify(gd.raw, gd.strict).empty()) return cs; // run() discards it
@@ -67,6 +70,7 @@ static bool prep(const Case &cs, Ctx &x, Verdict &v) {
   if (x.ft.err) v.labels.insert("g:error-rules");
   if (x.ft.dupRhs) v.labels.insert("g:duplicate-rhs");
   v.labels.insert(gd.strict ? "g:strict" : "g:non-strict");
+  if (gd.use_text) v.labels.insert("g:given-as-description-text");
   return true;
 }
 static std::string inputStr(const std::vector<int> &codes) {
@@ -102,7 +106,7 @@ static int refVerdict(const Ctx &x, const std::vector<int> &w, Enum &e, Verdict 
 
 // ================================================================= C01
 static Case genC01(Choices &c, int tier) {
-  GramOpts o; o.errorPct = 25; o.ambiguityBias = 10;
+  GramOpts o; o.errorPct = 25; o.ambiguityBias = 10; { int w[5] = {25, 20, 30, 10, 15}; for (int k = 0; k < 5; k++) o.regimeW[k] = w[k]; }
   return genParseCase(c, tier, "C01", o, 3, 50);
 }
 static Verdict runC01(const Case &cs) {
@@ -180,7 +184,7 @@ static bool usesInterestingTranslation(const Gram &g) {
 }
 
 static Case genC02(Choices &c, int tier) {
-  GramOpts o; o.ambiguityBias = 10;
+  GramOpts o; o.ambiguityBias = 10; { int w[5] = {25, 15, 20, 30, 10}; for (int k = 0; k < 5; k++) o.regimeW[k] = w[k]; }
   return genParseCase(c, tier, "C02", o, 3, 85);
 }
 static Verdict runC02(const Case &cs) {
@@ -219,7 +223,7 @@ static Verdict runC02(const Case &cs) {
 
 // ================================================================= C03
 static Case genC03(Choices &c, int tier) {
-  GramOpts o; o.ambiguityBias = 35;
+  GramOpts o; o.ambiguityBias = 35; { int w[5] = {25, 15, 20, 30, 10}; for (int k = 0; k < 5; k++) o.regimeW[k] = w[k]; }
   return genParseCase(c, tier, "C03", o, 3, 90);
 }
 static Verdict runC03(const Case &cs) {
@@ -270,7 +274,7 @@ static Verdict runC03(const Case &cs) {
 
 // ================================================================= C04
 static Case genC04(Choices &c, int tier) {
-  GramOpts o; o.ambiguityBias = 35;
+  GramOpts o; o.ambiguityBias = 35; { int w[5] = {15, 10, 15, 50, 10}; for (int k = 0; k < 5; k++) o.regimeW[k] = w[k]; }
   return genParseCase(c, tier, "C04", o, 2, 92);
 }
 static Verdict runC04(const Case &cs) {
@@ -354,7 +358,7 @@ static Verdict runC04(const Case &cs) {
 
 // ================================================================= C05
 static Case genC05(Choices &c, int tier) {
-  GramOpts o; o.ambiguityBias = 25;
+  GramOpts o; o.ambiguityBias = 25; { int w[5] = {20, 10, 15, 45, 10}; for (int k = 0; k < 5; k++) o.regimeW[k] = w[k]; }
   return genParseCase(c, tier, "C05", o, 3, 90);
 }
 static Verdict runC05(const Case &cs) {
@@ -434,7 +438,7 @@ struct QuietStderr { // the library prints its debug output to stderr
 };
 }
 static Case genC09(Choices &c, int tier) {
-  GramOpts o; o.errorPct = 30; o.ambiguityBias = 15;
+  GramOpts o; o.errorPct = 30; o.ambiguityBias = 15; { int w[5] = {15, 25, 15, 10, 35}; for (int k = 0; k < 5; k++) o.regimeW[k] = w[k]; }
   Case cs = genParseCase(c, tier, "C09", o, 2, 60);
   cs.par["one"] = c.flip();
   cs.par["cost"] = c.chance(30);
